@@ -22,6 +22,9 @@ package renamer
 //@     0 <= i && i < len(a) && 0 <= j && j < len(a) && !a.Less(i, j) && !a.Less(j, i) ==> a[i].count == a[j].count && a[i].slot == a[j].slot
 
 
+// see internal/linker: a StableSourceIndex field must hold a value read from the stable index table
+//@ flow stable-index-provenance C08: func=* ; in=renamer ; site=store *.StableSourceIndex ; valuepath=*tableSourceIndices[*]
+
 // ----------------------------------------------------------------------------------------------
 // C10: cross-chunk export aliases handed out by one ExportRenamer are pairwise distinct: every
 // returned name was not handed out before and is recorded as handed out afterwards.
